@@ -202,6 +202,127 @@ def h_is_held_local(h: H):
     h.ensure("HELD:provider-reports-the-file-lock's-state", out == "ok" and val is locked)
 
 
+def h_provider_acquire_local(h: H):
+    """PROVIDER/local: the provider's acquire() is what commit / table creation call WITHOUT looking at the result - returning at
+    all means "held".  Contract of FileLock.acquire (units LOCAL/acquire): called blocking, it returns True holding the lock or
+    raises TimeoutError holding nothing."""
+    c = h.ctx
+    lk = filelock(h, False)
+    prov = h.obj("LocalLockProvider", lock=lk)
+    calls = []
+
+    def fl_acquire(I, fv, args, kwargs):
+        blocking = kwargs.get("blocking", args[1] if len(args) > 1 else True)
+        calls.append(blocking)
+        if blocking is True and I.ctx.flip("lock-stays-busy-until-the-deadline"):
+            raise PyRaise(SExc("TimeoutError", origin="FileLock.acquire: deadline passed", fields={"timeout": True}))
+        if blocking is not True and I.ctx.flip("busy-now"):
+            return False
+        args[0].fields["_locked"] = True
+        return True
+    h.reg.contracts[f"{FL}:FileLock.acquire"] = fl_acquire
+    out, val = h.run(f"{LP}:LocalLockProvider.acquire", [prov])
+    h.ensure("PROVIDER:local:asks-the-file-lock-exactly-once", len(calls) == 1)
+    if out == "ok":
+        h.ensure("PROVIDER:local:returns-only-while-holding-the-lock(callers-do-not-look-at-the-result)",
+                 val is True and lk.fields["_locked"] is True,
+                 detail="MetadataManager.commit / initialize_table call acquire() as a statement: any normal return is taken as success")
+    else:
+        h.ensure("TIMEOUT:provider:a-blocked-acquirer-fails-with-TimeoutError", val.cls == "TimeoutError" and lk.fields["_locked"] is False, detail=repr(val))
+    h.cover("PROVIDER:local:timeout-path-reachable", out == "raise")
+
+
+def h_provider_acquire_s3(h: H):
+    """PROVIDER/s3: S3LockProviderBase.acquire returns (True) only right after an attempt that took the lock, marks itself held,
+    starts the heartbeat; gives up with TimeoutError only after a clock reading at or past start+timeout, holding nothing; it
+    never returns otherwise."""
+    c = h.ctx
+    g = {"faults": False}
+    prov, lock_id, lease = s3provider(h, g, locked=False)
+    attempts, beats, breaks = [], [], []
+
+    def try_acquire(I, fv, args, kwargs):
+        ok = I.ctx.flip("attempt-takes-the-lock")
+        attempts.append(ok)
+        return ok
+    h.reg.contracts[f"{LP}:S3LockProvider._try_acquire"] = try_acquire
+    h.reg.contracts[f"{LP}:S3LockProviderBase._start_heartbeat"] = lambda I, fv, a, k: beats.append(len(attempts)) or None
+    # _check_and_break_expired_lock is NOT stubbed: the conditional-write provider inherits the base's no-op, interpreted here; any
+    # S3 request it (or the loop) issued would show up in the world's log
+    w = s3lock_world(h, g)
+    g_loop = {"reads_at": 0}
+
+    def inv(I, env, it):
+        res = [("ACQ-S3:loop-head=>not-yet-held", z3.BoolVal(prov.fields["is_locked"] is False))]
+        if it.get("after_body"):
+            reads = c.ghost["clock"]["reads"]
+            new = reads[g_loop["reads_at"]:]
+            res.append(("TIMEOUT:s3:a-blocked-acquirer-rechecks-the-deadline-every-round",
+                        z3.BoolVal(False) if not new or not reads else new[-1] - reads[0] < prov.fields["timeout"].r))
+        return res
+
+    def havoc(I, env, it):
+        del attempts[:]
+        g_loop["reads_at"] = len(c.ghost["clock"]["reads"])
+    h.reg.loops[f"{LP}:S3LockProviderBase.acquire"] = {"*": LoopSpec(invariant=inv, havoc=havoc, name="attempts")}
+    out, val = h.call(h.I.getattr(prov, "acquire"), [])
+    reads = c.ghost["clock"]["reads"]
+    if out == "ok":
+        h.ensure("PROVIDER:s3:returns-only-right-after-an-attempt-that-took-the-lock(callers-do-not-look-at-the-result)",
+                 val is True and bool(attempts) and attempts[-1] is True and prov.fields["is_locked"] is True)
+        h.ensure("PROVIDER:s3:heartbeat-started-after-the-lock-was-taken", len(beats) == 1)
+    else:
+        h.ensure("TIMEOUT:s3:a-blocked-acquirer-fails-with-TimeoutError", val.cls == "TimeoutError", detail=repr(val))
+        h.ensure("TIMEOUT:s3:only-after-a-clock-reading-at-or-past-the-deadline",
+                 z3.BoolVal(False) if len(reads) < 2 else reads[-1] - reads[0] >= prov.fields["timeout"].r)
+        h.ensure("TIMEOUT:s3:nothing-held-when-it-fires", prov.fields["is_locked"] is False and bool(attempts) and attempts[-1] is False and not beats)
+    h.ensure("PROVIDER:s3:no-request-to-the-lock-object-outside-the-conditional-attempts(nothing-is-broken-or-deleted-while-waiting)",
+             not [e for e in w["log"] if e[0] != "env"])
+    h.cover("PROVIDER:s3:timeout-path-reachable", out == "raise")
+
+
+def h_heartbeat_loop(h: H):
+    """HEARTBEAT: the renewal thread renews only while this provider believes it holds the lock, one renewal per waiting round,
+    stops when told to or when the lock is no longer held, and never dies of a renewal error (which _renew_once turns into a
+    cleared is_locked)."""
+    c = h.ctx
+    g = {"faults": False}
+    prov, lock_id, lease = s3provider(h, g, locked=True)
+    renews, waits = [], []
+
+    def wait(I, o, a, k):
+        stop = I.ctx.flip("stop-requested")
+        waits.append(stop)
+        return stop
+    h.reg.theory_methods[("event", "wait")] = wait
+
+    def renew(I, fv, args, kwargs):
+        renews.append(args[0].fields["is_locked"])
+        k = I.ctx.choose(3, "renewal-outcome")
+        if k == 1:
+            args[0].fields["is_locked"] = False            # loss detected
+        if k == 2:
+            raise PyRaise(SExc("RuntimeError", origin="unexpected renewal error", fields={"fault": True}))
+        return None
+    h.reg.contracts[f"{LP}:S3LockProvider._renew_once"] = renew
+
+    def inv(I, env, it):
+        res = []
+        if it.get("after_body"):
+            res.append(("HEARTBEAT:at-most-one-renewal-per-waiting-round,only-while-held", z3.BoolVal(len(renews) <= 1 and all(r is True for r in renews))))
+        return res
+
+    def havoc(I, env, it):
+        del renews[:]
+        del waits[:]
+        prov.fields["is_locked"] = [True, False][I.ctx.choose(2, "held-at-loop-head")]
+    h.reg.loops[f"{LP}:S3LockProviderBase._heartbeat_loop"] = {"*": LoopSpec(invariant=inv, havoc=havoc, name="rounds")}
+    out, val = h.call(h.I.getattr(prov, "_heartbeat_loop"), [])
+    h.ensure("HEARTBEAT:the-thread-never-dies-of-an-exception", out == "ok", detail=repr(val) if out != "ok" else "")
+    h.ensure("HEARTBEAT:ends-only-when-told-to-stop-or-no-longer-holding", bool(waits and waits[-1] is True) or prov.fields["is_locked"] is False)
+    h.ensure("HEARTBEAT:no-renewal-in-the-round-that-ends-the-loop", all(r is True for r in renews))
+
+
 def _replay_flock(ob):
     return '''
 import sys, os, tempfile, shutil, threading, time
@@ -228,6 +349,17 @@ try:
     if c.acquire(blocking=False): bad.append("newcomer acquired although a waiter holds the lock (different inode)")
     os.close(fdw)
     if a.is_held(): bad.append("is_held() true after release")
+    # provider level: commit / create call provider.acquire() as a statement - it must not return while another holder is live
+    from datashard.lock_provider import LocalLockProvider
+    p2 = os.path.join(root, ".locks", "prov.lock")
+    P1, P2 = LocalLockProvider(p2, 0.3), LocalLockProvider(p2, 0.3)
+    P1.acquire()
+    try:
+        r = P2.acquire()
+        bad.append("blocked LocalLockProvider.acquire() returned %r instead of raising TimeoutError while another holder is live" % (r,))
+    except TimeoutError:
+        pass
+    P1.release()
 finally:
     shutil.rmtree(root, ignore_errors=True)
 print("replay FileLock ->", bad or "ok")
@@ -238,6 +370,7 @@ sys.exit(1 if bad else 0)
 register(Unit(P, "LOCAL/_try_acquire_once", h_try_acquire_once, functions=[f"{FL}:FileLock._try_acquire_once"], replay=_replay_flock))
 register(Unit(P, "LOCAL/acquire", h_acquire, functions=[f"{FL}:FileLock.acquire"], replay=_replay_flock))
 register(Unit(P, "LOCAL/release", h_release, functions=[f"{FL}:FileLock.release"], replay=_replay_flock))
+register(Unit(P, "PROVIDER/LocalLockProvider.acquire", h_provider_acquire_local, functions=[f"{LP}:LocalLockProvider.acquire"], replay=_replay_flock))
 register(Unit(P, "LOCAL/is_held", h_is_held_local, functions=[f"{FL}:FileLock.is_held", f"{LP}:LocalLockProvider.is_held"], replay=_replay_flock))
 
 
@@ -511,6 +644,13 @@ def h_release_s3(h: H):
                  z3.Implies(ex_at, w["own"](content_at)),
                  classes=[("takeover-between-GET-and-unconditional-DELETE", z3.And(ex_at, z3.Not(w["own"](content_at))))],
                  detail="release() reads the object, then issues an unconditional delete_object")
+    for idx, e in enumerate(w["log"]):
+        if e[0] != "delete":
+            continue
+        before = [x for x in w["log"][:idx] if x[0] in ("get", "put", "head", "delete", "put-rejected")]
+        h.ensure("REL-S3:deletes-only-right-after-reading-back-its-own-id-from-the-object",
+                 w["own"](before[-1][1]) if before and before[-1][0] == "get" else z3.BoolVal(False),
+                 detail="the last request before the DELETE must be a GET that returned this provider's own id")
     h.ensure("REL-S3:never-overwrites-the-lock-object", not [e for e in w["log"] if e[0] == "put"])
 
 
@@ -556,7 +696,8 @@ sys.exit(1 if bad else 0)
 
 
 def _replay_s3lock(ob):
-    fallback = ob.get("verdict") in ("undecided", "scenario")
+    # the GET/DELETE race of release() is the listed known finding: it is replayed for that obligation only
+    fallback = ob.get("verdict") in ("undecided", "scenario") or "deletes-only-while-the-object-carries-the-own-id" not in str(ob.get("name", ""))
     return f"FALLBACK = {fallback!r}\n" + '''
 import sys, datetime, time
 from doubles.s3 import FakeS3
@@ -579,6 +720,18 @@ try:
     A, B, C = mk(), mk(), mk()
     assert A.acquire()
     if B._try_acquire(): bad.append("B acquired while A's lease is fresh")
+    # a blocked acquire() (what commit calls, as a statement) must fail with TimeoutError - not return, not wait for ever
+    import threading
+    res = {}
+    def blocked():
+        try: res["ret"] = B.acquire()
+        except TimeoutError: res["timeout"] = True
+        except Exception as e: res["exc"] = repr(e)
+    th = threading.Thread(target=blocked, daemon=True); th.start(); th.join(6.0)
+    if th.is_alive(): bad.append("blocked acquire() still waiting 6 s after a 0.1 s timeout")
+    elif "ret" in res: bad.append("blocked acquire() returned %r while another holder's lease is fresh" % (res["ret"],))
+    elif "exc" in res: bad.append("blocked acquire() raised " + res["exc"])
+    if B.is_locked: bad.append("blocked acquirer marks itself as holder")
     now["t"] += datetime.timedelta(seconds=30)
     if B._try_acquire(): bad.append("takeover before the lease lapsed")
     # A is paused; lease lapses; B takes over; A must observe that it no longer holds
@@ -586,6 +739,12 @@ try:
     if not B._try_acquire(): bad.append("takeover after lapse failed")
     B.is_locked = True
     if A.is_held(): bad.append("superseded holder still reports is_held()")
+    A.is_locked = True
+    # a superseded holder that has not noticed yet releases: the object now carries B's id and must stay
+    A.release()
+    cur_obj = s3.objects.get(("bkt", "locks/metadata.lock"))
+    if cur_obj is None or not cur_obj.decode().startswith(B.lock_id):
+        bad.append("release() by a superseded holder removed the lock object of the agent that took over")
     A.is_locked = True
     # REL-S3: A's release interleaved with a takeover between its GET and its DELETE
     state = {}
@@ -609,6 +768,8 @@ sys.exit(1 if bad else 0)
 register(Unit(P, "S3/_try_acquire", h_try_acquire, functions=[f"{LP}:S3LockProvider._try_acquire"], replay=_replay_s3lock))
 register(Unit(P, "S3/_try_takeover_expired", h_takeover, functions=[f"{LP}:S3LockProvider._try_takeover_expired"], replay=_replay_takeover_renewal))
 register(Unit(P, "S3/_renew_once", h_renew, functions=[f"{LP}:S3LockProvider._renew_once"], replay=_replay_takeover_renewal))
+register(Unit(P, "PROVIDER/S3LockProviderBase.acquire", h_provider_acquire_s3, functions=[f"{LP}:S3LockProviderBase.acquire"], replay=_replay_s3lock))
+register(Unit(P, "HEARTBEAT/_heartbeat_loop", h_heartbeat_loop, functions=[f"{LP}:S3LockProviderBase._heartbeat_loop"], replay=_replay_takeover_renewal))
 register(Unit(P, "S3/is_held", h_is_held_s3, functions=[f"{LP}:S3LockProviderBase.is_held"], replay=_replay_s3lock))
 register(Unit(P, "S3/release", h_release_s3, functions=[f"{LP}:S3LockProviderBase.release"], replay=_replay_s3lock))
 
